@@ -78,27 +78,50 @@ Section WithDigest.
     induction items as [|i items IH]; intros w; simpl; auto. apply IH.
   Qed.
 
+  Lemma fcheck_seq_calm os : forall w,
+    fcheck_seq H (calm_w w) os = (fst (check_seq H w os), calm_w (snd (check_seq H w os))).
+  Proof.
+    induction os as [|o os IH]; intros w; simpl; auto. rewrite fcheck_calm. simpl.
+    destruct (fst (check w o) =? 0); auto.
+  Qed.
+
+  Lemma foids_exist_calm w os :
+    foids_exist H (calm_w w) os = (fst (oids_exist H w os), calm_w (snd (oids_exist H w os))).
+  Proof.
+    unfold foids_exist, oids_exist. cbn [f_w calm_w]. destruct (w_cls w).
+    - change (FW w None false) with (calm_w w). apply fexist_fold_calm.
+    - reflexivity.
+  Qed.
+
+  Lemma fadd_calm w v items :
+    fadd H (calm_w w) v items = (fst (add H w v items), calm_w (snd (add H w v items))).
+  Proof.
+    unfold fadd, add. cbn [f_w calm_w].
+    destruct (match v with Some b => b | None => w_verify w end).
+    - rewrite fpre_fold_calm, fcopy_fold_calm. cbn [snd fst].
+      rewrite fpost_fold_calm. cbn [snd fst]. rewrite fsave_fold_calm. reflexivity.
+    - change (FW w None false) with (calm_w w). rewrite fcopy_fold_calm. cbn [snd fst].
+      rewrite fpost_fold_calm. cbn [snd fst]. rewrite fsave_fold_calm. reflexivity.
+  Qed.
+
   Lemma fstep_calm w p : fstep H (calm_w w) p = (calm_w (fst (step H w p)), snd (step H w p)).
   Proof.
-    destruct p as [v items|v items|o|os|o|d ents|o b m t|o|o|o alg vv|]; try reflexivity.
+    destruct p as [v items|v items|o|os|o|d ents|o b m t|o|o|o alg vv| |os|v items]; try reflexivity.
     - (* add *)
-      unfold fstep, step, fadd, add. cbn [f_w calm_w].
-      destruct (match v with Some b => b | None => w_verify w end).
-      + rewrite fpre_fold_calm, fcopy_fold_calm. cbn [snd fst].
-        rewrite fpost_fold_calm. cbn [snd fst]. rewrite fsave_fold_calm. reflexivity.
-      + change (FW w None false) with (calm_w w). rewrite fcopy_fold_calm. cbn [snd fst].
-        rewrite fpost_fold_calm. cbn [snd fst]. rewrite fsave_fold_calm. reflexivity.
+      unfold fstep, step. rewrite fadd_calm. reflexivity.
     - (* add through a read-only handle *)
       unfold fstep, step, add_ro. cbn [f_w calm_w].
       destruct (match v with Some b => b | None => w_verify w end); [|reflexivity].
       rewrite fpre_fold_calm. reflexivity.
     - unfold fstep, step. rewrite fcheck_calm. reflexivity.
-    - unfold fstep, step, foids_exist, oids_exist. cbn [f_w calm_w]. destruct (w_cls w).
-      + change (FW w None false) with (calm_w w). rewrite fexist_fold_calm. reflexivity.
-      + reflexivity.
+    - unfold fstep, step. rewrite foids_exist_calm. reflexivity.
     - unfold fstep, step, fcheckout, checkout. rewrite fcheck_calm. cbn.
       destruct (lookup o (w_objs (snd (check w o)))); reflexivity.
     - unfold fstep, step, fcheckout_dir, checkout_dir. rewrite fcheck_all_calm. reflexivity.
+    - unfold fstep, step. rewrite fcheck_seq_calm. reflexivity.
+    - unfold fstep, step, fxfer, xfer. rewrite foids_exist_calm. cbn [fst snd].
+      destruct (xfer_new (fst (oids_exist H w (map it_oid items))) items) as [|i new]; [reflexivity|].
+      rewrite fadd_calm. reflexivity.
   Qed.
 
   Theorem frun_refines h : forall w,
@@ -171,6 +194,20 @@ Section WithDigest.
         * rewrite E. simpl. destruct (TG_step H (f_w fw) o o' T) as [T' X]. split; [right; exact T'|].
           intros EQ. destruct (X EQ) as [X1 X2]. auto.
         * split; [left; exact E2|]. intros _. rewrite E1. split; [discriminate|auto].
+  Qed.
+
+  (* ---- the tree-level check never passes over a tampered object *)
+  Theorem fault_check_seq_rejects o ob os : forall fw, f_abort fw = false -> Tampered (f_w fw) o ob ->
+    In o os -> fst (fcheck_seq H fw os) <> 0.
+  Proof.
+    assert (K : forall os fw, FTG fw o -> In o os -> fst (fcheck_seq H fw os) <> 0).
+    { induction os0 as [|o' os0 IH]; intros fw T I; simpl; [contradiction|].
+      destruct (FTG_step fw o o' T) as [T' X].
+      destruct (fst (fcheck fw o') =? 0) eqn:E.
+      - apply IH; auto. destruct I as [->|I]; auto.
+        destruct (X eq_refl) as [X1 _]. apply N.eqb_eq in E. contradiction.
+      - apply N.eqb_neq in E. exact E. }
+    intros fw A T I. apply K; auto. right. left. now exists ob.
   Qed.
 
   Lemma fcheck_all_abort os : forall fw, f_abort fw = true -> f_abort (fcheck_all H fw os) = true.
